@@ -4,10 +4,15 @@ import TallyVerif.Driver.Analyze
 import TallyVerif.Driver.Rules
 import TallyVerif.Driver.Expr
 import TallyVerif.Driver.Engine
+import TallyVerif.Driver.Sandbox
 import TallyVerif.Driver.Report
 import TallyVerif.Driver.RulesFile
 import TallyVerif.Driver.Fmt
 import TallyVerif.Driver.Csv
+import TallyVerif.Driver.Fs
+import TallyVerif.Driver.View
+import TallyVerif.Driver.Discover
+import TallyVerif.Driver.Migrate
 /-! `tvdrv`: one JSON object per line in, one canonical JSON object per line out. -/
 open Lean TallyVerif.Driver
 
@@ -20,6 +25,7 @@ def dispatch (j : Json) : Json :=
   | "transforms" => handleTransforms j
   | "eval" => handleEval j
   | "engine" => handleEngine j
+  | "validate" => handleValidate j
   | "report" => handleReport j
   | "rulesfile" => handleRulesFile j
   | "viewsfile" => handleViewsFile j
@@ -31,6 +37,13 @@ def dispatch (j : Json) : Json :=
   | "csv" => handleCsv j
   | "amount" => handleAmount j
   | "spaces" => handleSpaces j
+  | "discover" => handleDiscover j
+  | "migrate" => TallyVerif.Driver.Mig.handleMigrate j
+  | "vieweval" => handleViewEval j
+  | "views" => handleViews j
+  | "viewkeys" => handleViewKeys j
+  | "fs" => FsD.handleFs j
+  | "fsseq" => FsD.handleFsSeq j
   | "ping" => obj [("pong", .bool true)]
   | op => obj [("err", .str s!"unknown op {op}")]
 
